@@ -577,6 +577,11 @@ def fund_and_build(
         payments.append(TxOut(amount, script))
     change_wallet = wallets[ch.draw(len(wallets), "change.wallet")] if ch.draw(4, "change?") else None
     change_index = ch.draw(6, "change.index")
+    if change_wallet is not None and ch.draw(6, "pay.to-change-script?") == 5:
+        # a payment to the very script the change goes to (a wallet consolidating to its own next change address while it
+        # pays others): two outputs of one script, of which the LAST is the change
+        at = ch.draw(len(payments), "pay.to-change-script.at")
+        payments[at] = TxOut(payments[at].value, change_wallet.change.script_pub_key(change_index).script)
     cer = Ceremony(list(cosigners), wallets, specs, payments, rate, change_wallet, change_index, lock_time, None, None, [s.prev_tx.vout[s.vout] for s in specs])  # type: ignore[arg-type]
     cer.funded = build_psbt(psbt_ins, payments, rate, cer.change_script, lock_time=lock_time, sizer=cer.sizer)
     psbt = cer.funded.psbt
